@@ -219,6 +219,41 @@ theorem c19_managers_independent (cfg : Cfg κ ν) (p : Store ι κ ν × Store 
         = (runFrom cfg p.2 ((xs.filter (fun y => !y.1)).map (·.2))).2 :=
   runPairFrom_proj cfg p xs
 
+/-- Nothing removes a session behind the caller's back, whatever the clock says: only
+`delete_session`, `cleanup_expired` and `clear_all_sessions` can make a live id disappear — every other
+operation (create, lookups, activity updates, listings, every dispatched message and initialize),
+at ANY clock value, hours or years after the previous one or before it, keeps every live session;
+and a session whose activity was just updated is there, stamped with the current clock value. -/
+theorem c19_no_silent_removal (cfg : Cfg κ ν) (s : Store ι κ ν) (now : Int) (op : Op ι κ ν)
+    (hop : (∀ i, op ≠ .delete i) ∧ (∀ a, op ≠ .cleanup a) ∧ op ≠ .clear) :
+    (∀ j ∈ keys s, j ∈ keys (step cfg s now op).1)
+    ∧ ∀ i, (touch s i now).2 = true →
+        ∃ r, get (touch s i now).1 i = some r ∧ r.last = now ∧ keys (touch s i now).1 = keys s := by
+  obtain ⟨hd, hc, hk⟩ := hop
+  constructor
+  · intro j hj
+    cases op with
+    | create id c v => simp only [step, keys_put]; split <;> simp_all
+    | get id => exact hj
+    | touch id => simp only [step, keys_touch]; exact hj
+    | delete id => exact absurd rfl (hd id)
+    | cleanup a => exact absurd rfl (hc a)
+    | list => exact hj
+    | clear => exact absurd rfl hk
+    | count => exact hj
+    | init sid id c rq => simp only [step, keys_put, keys_touchOpt]; split <;> simp_all
+    | request sid => simp only [step, keys_touchOpt]; exact hj
+    | initSilent sid id c rq => simp only [step, keys_put, keys_touchOpt]; split <;> simp_all
+    | message sid k => cases k <;> simp only [step, keys_touchOpt] <;> exact hj
+  · intro i hi
+    unfold touch at hi ⊢
+    cases hg : get s i with
+    | none => simp [hg] at hi
+    | some r =>
+      refine ⟨{ r with last := now }, by simp [get_put], rfl, ?_⟩
+      have : i ∈ keys s := by rw [← get_isSome_iff_mem, hg]; rfl
+      simp [keys_put, this]
+
 end
 
 /-! ## Non-vacuity: concrete histories (ids `Nat`, client info and versions `String`) -/
@@ -257,6 +292,10 @@ example :
     ∧ keys (run cfgEx [(0, .create 7 "a" "v"), (3, .initSilent (some 7) 8 none none)]).1 = [7, 8]
     ∧ ((run cfgEx [(0, .create 7 "a" "v"), (3, .create 7 "b" "w")]).1.map (fun p => (p.1, p.2.client, p.2.created)))
         = [(7, "b", 3)] := by decide
+
+/-- idle for a year, then one more message with the session id: the session is still there, freshly stamped -/
+example : (run cfgEx [(0, .create 7 "a" "v"), (31536000, .message (some 7) .handlerReturned)]).1.map
+    (fun p => (p.1, p.2.last)) = [(7, 31536000)] := by decide
 
 /-- two managers, interleaved creates with the SAME id: each keeps its own session -/
 example : (runPairFrom cfgEx (([] : Store Nat String String), []) [(true, 0, .create 7 "a" "v"), (false, 1, .create 7 "b" "w"),
